@@ -5,7 +5,7 @@ CONSTANT PovmSets = {"P3", "Pmix", "P2", "Pu"}
 CONSTANT SchedVariants = {"all", "subset", "permrep"}
 CONSTANT Ms = {2, 3}
 CONSTANT NData = 5
-CONSTANT SolveMax = 8
+CONSTANT SolveMax = 4
 CONSTANT Emit = TRUE
 INVARIANT ResidualOrthogonal
 INVARIANT InvertsModel
